@@ -625,7 +625,7 @@ Definition check_prop (n : N) (e : env) (tr : list event) (ls : list label) : bo
   | 10 => chk_C10 e tr
   | 11 => chk_C11 e tr
   | 12 => if has_loop tr && negb (has_skip tr || has_panic tr) then chk_C12 e tr else true
-  | 16 => chk_C16 e tr && chk_C02 e tr && chk_C03 e tr
+  | 16 => chk_C16 e tr && chk_C02 e tr && chk_C03 e tr && chk_C01_nodup e tr
   | 17 => chk_no_panic tr
   | _ => true
   end.
